@@ -383,6 +383,64 @@ func runC08(r *Run) {
 	} else {
 		r.Bad("R8", "anchor/ConvertVestingAccount", "", "not found")
 	}
+	r.Rule("R10", "FLOW.evm-commit-keeps-the-stored-account: the EVM keeper's SetAccount (what StateDB.Commit calls for every dirty address — a vesting account's address included, e.g. when code is deployed to it or value reaches it) hands the auth keeper the very account object it read with GetAccount; a new account object is built only over the edge on which none was stored. Replacing a stored ClawbackVestingAccount by a fresh EthAccount drops its schedule, funder and delegation tracking: LockedCoins is never consulted for that address again")
+	if sa, ok := P.FnOK("(*x/evm/keeper.Keeper).SetAccount"); ok {
+		var setCall, getCall ssa.CallInstruction
+		eachCall(sa, func(ci CallInfo) {
+			if ci.Name == "SetAccount" && ci.Recv != "Keeper" {
+				setCall = ci.Instr
+			}
+			if ci.Name == "GetAccount" && getCall == nil {
+				getCall = ci.Instr
+			}
+		})
+		if setCall == nil || getCall == nil {
+			r.Bad("R10", fnID(sa)+"#keeps-the-stored-account", P.Pos(fnPos(sa)), "SetAccount no longer reads the stored account and writes it back through the account keeper")
+		} else {
+			args := setCall.Common().Args
+			acct := args[len(args)-1]
+			var leaves []ssa.Value
+			seen := map[ssa.Value]bool{}
+			var walk func(v ssa.Value)
+			walk = func(v ssa.Value) {
+				v = stripValue(v)
+				if seen[v] {
+					return
+				}
+				seen[v] = true
+				if ph, ok := v.(*ssa.Phi); ok {
+					for _, e := range ph.Edges {
+						walk(e)
+					}
+					return
+				}
+				leaves = append(leaves, v)
+			}
+			walk(acct)
+			bad := ""
+			var fresh ssa.CallInstruction
+			for _, l := range leaves {
+				c, isC := l.(*ssa.Call)
+				switch {
+				case isC && ssa.CallInstruction(c) == getCall:
+				case isC && callInfo(c).Name == "NewAccountWithAddress":
+					fresh = c
+				default:
+					bad = fmt.Sprintf("%s at %s", l.String(), P.Pos(l.Pos()))
+				}
+			}
+			okNil := true
+			if fresh != nil {
+				nilEdges, _ := condEdges(sa, func(x, y ssa.Value) bool { return stripValue(x) == getCall.Value() && isNilConst(y) })
+				w := PathQuery{Fn: sa, Target: func(in ssa.Instruction) bool { return in == ssa.Instruction(fresh) }, DelEdge: edgeSet(nilEdges)}.Search()
+				okNil = w == nil && len(nilEdges) > 0
+			}
+			r.Check(bad == "" && okNil, "R10", fnID(sa)+"#keeps-the-stored-account", P.Pos(instrPos(setCall)), "writes back the account it read (a new one only where none was stored)",
+				"the EVM keeper writes an account object other than the stored one ("+bad+") or builds a new one although an account exists: the stored account's type and fields (a vesting schedule) are lost at the next EVM commit touching that address")
+		}
+	} else {
+		r.Bad("R10", "anchor/evm Keeper.SetAccount", "", "not found")
+	}
 	r.Rule("R9", "PATH.merge-reads-the-old-schedule (same rule code as C09 R9): in addGrant no store into the account's StartTime, EndTime, LockupPeriods or VestingPeriods can precede a DisjunctPeriods call — a merge that reads the already updated start re-bases the account's existing vesting events earlier for a back-dated grant, so LockedCoins falls below the coins that are really unvested")
 	checkMergeBeforeUpdate(r, "R9")
 }
